@@ -95,7 +95,13 @@ func isCmp(op string) bool {
 	return false
 }
 
-func leaves() []string { return append([]string{"a", "b"}, consts...) }
+// leaves of expressions: the fields and the constants (thorough: the whole alphabet)
+func leaves(quick bool) []string {
+	if quick {
+		return append([]string{"a", "b"}, consts...)
+	}
+	return append([]string{"a", "b"}, alphabet...)
+}
 
 func isConst(l string) bool { return l != "a" && l != "b" }
 
@@ -104,7 +110,7 @@ func expressions(quick bool) []expr {
 	add := func(text string, cmps ...[2]string) {
 		out = append(out, expr{Text: text, Cmps: cmps})
 	}
-	ls := leaves()
+	ls := leaves(quick)
 	// depth 1
 	for _, op := range binOps {
 		for _, x := range ls {
